@@ -48,7 +48,7 @@ class C12(Prop):
     level = "exploration"
     tiers = {
         "quick": [("history", 240000), ("expiry", 150000)],
-        "thorough": [("history", 4800000), ("expiry", 3000000)],
+        "thorough": [("history", 4800000), ("expiry", 3000000), ("deep", 150000)],
     }
     rule_text = (
         "one case = flavour (sync/async function, sync/async method) x limit 1..4 x expiration {None, 1/8, 1, 5} x a "
@@ -63,7 +63,7 @@ class C12(Prop):
     }
 
     def sim_options(self, profile):
-        return {"max_boundaries": 8000}
+        return {"max_boundaries": 30000}
 
     def execute(self, sim, profile):
         from haiway import cache
@@ -71,18 +71,18 @@ class C12(Prop):
         s = sim.source
         Receiver.generations = 0  # per-run numbering (the event log must not depend on earlier runs)
         flavour = FLAVOURS[s.draw(4, "flavour")]
-        limit = 1 + s.draw(4, "limit")
+        limit = 1 + s.draw(8 if profile == "deep" else 4, "limit")
         if profile == "expiry":
             exp_steps = EXPIRATIONS[1 + s.draw(3, "exp")]
         else:
             exp_steps = EXPIRATIONS[s.weighted((3, 1, 1, 1), "exp")]
         expiration = None if exp_steps is None else exp_steps * GRID
         n_recv = 1 + s.draw(3, "nrecv") if "method" in flavour else 1
-        n_ops = 2 + s.geometric(58, 10, "nops")
+        n_ops = (20 + s.geometric(230, 60, "nops")) if profile == "deep" else (2 + s.geometric(58, 10, "nops"))
         n_a = 2 + s.draw(len(A_VALUES) - 1, "alphabet")
         ops = []
         for _ in range(n_ops):
-            k = s.weighted((12, 3, 1, 1, 1 if n_recv else 0) if profile == "history" else (8, 6, 1, 0, 0), "op")
+            k = s.weighted((12, 3, 1, 1, 1 if n_recv else 0) if profile in ("history", "deep") else (8, 6, 1, 0, 0), "op")
             if k == 0:
                 form = s.weighted((4, 2, 1, 1), "form")
                 a = s.draw(n_a, "a")
